@@ -9,6 +9,9 @@ touching / not touching each page edge, integer and fractional coordinates;
      in one block or two, alignable or without logits (a line's words must not depend on its neighbours);
  (ii-c) very wide lines: 499..2100 logit frames with the text aligned near the start / middle / end;
  (iii) Arabic lines: all strings <= La over {beh, alef, x, 1, ' '} in alignable and fallback mode;
+(v) code-point classes: every string of length <= Lc over {a, X, ' '} containing X, for one letter X on each side of every boundary of the
+    XML Char production and of the UTF-8 / UTF-16 encoded lengths (U+007E .. U+10FFFF), X in the engine charset and outside it, 4 logit modes;
+    plus three Arabic-script lines per letter.
 (iv) logical/label order conversion: ALL strings of length <= Lo over {beh, alef, x, 1, ' ', '.', arabic comma}.
 
 Oracle: parsed output vs the words of str.split(); print-space arithmetic on the written attributes; re-import.
@@ -28,8 +31,8 @@ def nabs(x):
 
 MANIFEST = dict(
     technique='explicit-state enumeration of the transcription input tree x logit modes x confidence filter x baseline shapes, a page-structure lattice, and all short strings for the Arabic order conversion; real to_altoxml_string / from_altoxml_string / ArabicHelper vs split()-based reference',
-    text='Bounded exhaustive: every transcription of length <= 3 (quick) / 4 (thorough) over an 8-symbol alphabet (in-charset, out-of-charset, five kinds of white space) in 7 logit modes x 2 confidence filters x 3 baseline shapes (straight, slanted 4-point, one-pixel), and one level deeper in the two export branches (alignment / fallback); every page structure of 0-2 regions x 0-3 lines with blank/non-blank text and region boxes touching or not touching each page edge; Arabic lines up to length 4; every string up to length 6 / 7 over a 7-symbol mixed Arabic/Latin/digit/delimiter alphabet for the order conversion. Export must not raise, must parse, list every non-blank line once and in order with exactly the split() words (logical order on Arabic lines), write integer geometry, a print space equal to the bounding box of the blocks with margins tiling the page, WC in [0,1], drop only lines below the requested confidence, and re-import must return the same words. Added sub-sweeps: an eighth logit mode with exactly one frame per character, a one-pixel baseline, all ordered pairs / triples of mixed-script lines, lines of 499-2100 frames, pages of 12 blocks / 12 lines, export histories on one page object (logits attached or removed between exports), and a confidence-class clause (> 0.99 for one-hot-like, <= 0.5 for near-uniform or unalignable posteriors). Two more baseline shapes: one pixel long (empty crop grid; tested line first in its block) and right-to-left. Wave 10: export after get_quality() when the line was corrected by hand or recognised again; texts that are not in Unicode normal form C.',
-    note='Posteriors are synthetic; strings longer than the bound and characters outside the alphabets are not explored.',
+    text='Bounded exhaustive: every transcription of length <= 3 (quick) / 4 (thorough) over an 8-symbol alphabet (in-charset, out-of-charset, five kinds of white space) in 7 logit modes x 2 confidence filters x 3 baseline shapes (straight, slanted 4-point, one-pixel), and one level deeper in the two export branches (alignment / fallback); every page structure of 0-2 regions x 0-3 lines with blank/non-blank text and region boxes touching or not touching each page edge; Arabic lines up to length 4; every string up to length 6 / 7 over a 7-symbol mixed Arabic/Latin/digit/delimiter alphabet for the order conversion. Export must not raise, must parse, list every non-blank line once and in order with exactly the split() words (logical order on Arabic lines), write integer geometry, a print space equal to the bounding box of the blocks with margins tiling the page, WC in [0,1], drop only lines below the requested confidence, and re-import must return the same words. Added sub-sweeps: an eighth logit mode with exactly one frame per character, a one-pixel baseline, all ordered pairs / triples of mixed-script lines, lines of 499-2100 frames, pages of 12 blocks / 12 lines, export histories on one page object (logits attached or removed between exports), and a confidence-class clause (> 0.99 for one-hot-like, <= 0.5 for near-uniform or unalignable posteriors). Two more baseline shapes: one pixel long (empty crop grid; tested line first in its block) and right-to-left. Wave 10: export after get_quality() when the line was corrected by hand or recognised again; texts that are not in Unicode normal form C. Wave 11: a code-point-class sub-sweep - every string of length <= 3 (4 thorough) over {a, X, blank} containing X, for 11 letters X taken from both sides of every class boundary of the XML Char production and of the UTF-8 / UTF-16 encoded lengths (U+007E, U+00E9, U+07FF, U+0800, U+D7FF, U+E000, U+FFFD, U+10000, U+1D504, U+20000, U+10FFFF), X in the character table of the line and outside it, alignable / diffuse / unalignable / absent posteriors, and three Arabic-script lines per letter; the exported and re-imported words must be the words of the transcription.',
+    note='Posteriors are synthetic; strings longer than the bound and characters outside the alphabets are not explored (of the code points only one representative per class; characters XML 1.0 cannot hold - controls, U+FFFE/U+FFFF - are outside the space).',
     ref='3/C06')
 
 ALPHA = ['a', 'b', 'c', ' ', ' ', '\t', ' ', '　']
@@ -40,7 +43,18 @@ AR = ['ب', 'ا', 'x', '1', ' ', '\u00a0', '\t']
 ORD = ['ب', 'ا', 'x', '1', ' ', '.', '،']
 CHARSET = ['a', 'b', ' ', '​']
 CHARSET_PERMUTED = ['b', ' ', 'a', '​']
-BOUNDS = {'quick': dict(L=3, Lr=4, La=4, Lo=6, max_lines=3), 'thorough': dict(L=4, Lr=5, La=5, Lo=7, max_lines=4)}
+BOUNDS = {'quick': dict(L=3, Lr=4, La=4, Lo=6, max_lines=3, Lc=3), 'thorough': dict(L=4, Lr=5, La=5, Lo=7, max_lines=4, Lc=4)}
+# one letter on each side of every class boundary a text encoder / XML writer distinguishes (all of them are XML 1.0 Chars, none is white space):
+# last printable ASCII | Latin-1 (2 UTF-8 bytes) | last 2-byte | first 3-byte | last before the surrogates | first after them (private use) |
+# last BMP Char | first supplementary (2 UTF-16 units, 4 UTF-8 bytes) | plane 1 letter | plane 2 ideograph | last code point
+CODEPOINTS = [0x7e, 0xe9, 0x7ff, 0x800, 0xd7ff, 0xe000, 0xfffd, 0x10000, 0x1d504, 0x20000, 0x10ffff]
+CP_MODES = ['aligned', 'diffuse', 'short', 'absent']
+CP_ARABIC = ['با {X}', '{X} با', 'ب{X} ا']
+
+
+def cp_class(cp):
+    return ('ascii' if cp < 0x80 else 'two-utf8-bytes' if cp < 0x800 else 'bmp-below-surrogates' if cp < 0xd800 else
+            'bmp-above-surrogates' if cp < 0x10000 else 'supplementary-plane')
 BOUNDS['replay'] = BOUNDS['quick']
 PAGE = (200, 400)   # height, width
 NS = '{http://www.loc.gov/standards/alto/ns-v2#}'
@@ -71,6 +85,8 @@ def shards(tier):
                 out.append({'kind': 'text', 'L': L, 'prefix': list(p), 'reduced': L > b['L']})
     out.append({'kind': 'structure'})
     out.append({'kind': 'long'})
+    for i in range(len(CODEPOINTS)):
+        out.append({'kind': 'codepoint', 'cp': i})
     for i in range(len(MULTI_TEXTS)):
         out.append({'kind': 'multi', 'first': i})
     for L in range(1, b['La'] + 1):
@@ -130,6 +146,13 @@ def run_shard(shard, ctx, tier):
             for place in ('start', 'middle', 'end'):
                 for text in ('ab', 'a b a', 'b'):
                     guarded_check(mod, {'long': [T, place, text]}, ctx)
+    elif shard['kind'] == 'codepoint':
+        for L in range(1, BOUNDS[tier]['Lc'] + 1):
+            for t in itertools.product(range(3), repeat=L):
+                if 1 in t:
+                    guarded_check(mod, {'codepoint': shard['cp'], 'ctext': list(t)}, ctx)
+        for k in range(len(CP_ARABIC)):
+            guarded_check(mod, {'codepoint': shard['cp'], 'carabic': k}, ctx)
     elif shard['kind'] == 'multi':
         n = len(MULTI_TEXTS)
         for rest in itertools.chain(itertools.product(range(n), repeat=1), itertools.product(range(n), repeat=2)):
@@ -541,6 +564,39 @@ def check_long(case, ctx):
             ctx.nontrivial(('long', T, place, text), 'lines-with-more-than-1000-frames')
 
 
+def check_codepoint(case, ctx):
+    """the out-of-charset / in-charset letter of the transcription taken from every code-point class (both sides of each class boundary)"""
+    cp = CODEPOINTS[case['codepoint']]
+    X, cls = chr(cp), cp_class(cp)
+    if 'carabic' in case:
+        text = CP_ARABIC[case['carabic']].replace('{X}', X)
+        combos = [(m, 0) for m in ('diffuse', 'absent')]
+        base = ['ب', 'ا', ' ', '​']
+    else:
+        text = ''.join(('a', X, ' ')[i] for i in case['ctext'])
+        combos = [(m, inside) for m in CP_MODES for inside in (0, 1)]
+        base = CHARSET
+    if 'cfg' in case:
+        combos = [tuple(case['cfg'])]
+    ctx.state(('codepoint', cp, text))
+    for mode, inside in combos:
+        cs = [base[0], X] + base[2:] if inside else base
+        sub = dict(case, cfg=[mode, inside])
+        line = make_line('r1-l001', text, mode, charset=cs)
+        page = make_page([('r1', REGION_BOXES[1], [make_line('r1-l000', 'b a', 'aligned', y=120), line])])
+        desc = (f'transcription {text!r} with U+{cp:04X} ({cls}, {"in" if inside else "not in"} the character table of the line) mode={mode}')
+        doc = check_export(page, 0.0, ctx, f'{ID}/codepoint/{cls}/{mode}', desc, sub)
+        if doc is None:
+            continue
+        ws = text.split()
+        ctx.outcome(('codepoint', cls, len(ws), mode))
+        ctx.nontrivial(('codepoint', cp, text, mode, inside), 'code-point-class-exported')
+        if cp >= 0x10000:
+            ctx.tag('supplementary-plane-character-exported')
+        if 'carabic' in case:
+            ctx.tag('code-point-class-on-arabic-line')
+
+
 def check_multi(case, ctx):
     texts = [MULTI_TEXTS[i] for i in case['multi']]
     cs = ['a', 'b', 'x', 'y', ' ', 'ب', 'ا', '​']
@@ -598,7 +654,9 @@ def check_order(case, ctx):
 
 
 def check_case(case, ctx):
-    if 'text' in case:
+    if 'codepoint' in case:
+        check_codepoint(case, ctx)
+    elif 'text' in case:
         check_text(case, ctx)
     elif 'structure' in case:
         check_structure(case, ctx)
@@ -615,17 +673,18 @@ def check_case(case, ctx):
 def describe(tier):
     return {
         'rule': 'all transcriptions of length<=L over the 8-symbol alphabet x 8 logit modes x 2 confidence filters x 5 baseline shapes (straight, slanted 4-point, zero-length, one pixel long, right-to-left; the last two for short texts) (length L+1..Lr: aligned and too-short mode only); '
+                'every string <=Lc over {a, X, blank} containing X for 11 letters X, one on each side of every code-point class boundary (ASCII / 2 / 3 / 4 UTF-8 bytes, surrogate gap, last BMP Char, supplementary planes, last code point), X in and outside the character table, 4 logit modes, and 3 Arabic-script lines per letter; '
                 'all page structures (0..2 regions from 5 boxes, 0..3 lines each, <=max_lines lines per page, 3 line texts); all Arabic-script '
                 'strings <=La (2 modes); all strings <=Lo over the 7-symbol order alphabet. state = distinct input. Non-trivial: a '
                 'multi-word transcription exported through the alignment branch; a two-region page; an Arabic line; a string the '
                 'order conversion actually reorders.',
         'bounds': BOUNDS[tier],
         'alphabets': {'text': [repr(c) for c in ALPHA], 'modes': MODES, 'min_conf': MINCONF, 'baselines': BASELINES,
-                      'arabic': AR, 'order': ORD, 'region_boxes': REGION_BOXES, 'line_texts': [repr(t) for t in LINE_TEXTS]},
+                      'arabic': AR, 'order': ORD, 'codepoints': ['U+%04X' % c for c in CODEPOINTS], 'codepoint_modes': CP_MODES, 'region_boxes': REGION_BOXES, 'line_texts': [repr(t) for t in LINE_TEXTS]},
         'assumptions': ['print space compared exactly for integer region coordinates, within 2 px for fractional ones (values are truncated separately)',
                         'a line counts as dropped iff the confidence the export stored on it is below min_line_confidence; that confidence must be > 0.99 for one-hot-like posteriors and <= 0.5 for near-uniform or unalignable ones'],
         'min_nontrivial': 100,
-        'required_tags': ['export-after-get_quality', 'lines-with-different-character-tables', 'more-than-nine-blocks-or-lines', 'export-history-on-one-page', 'lines-with-more-than-1000-frames', 'mixed-script-pages', 'multi-word-aligned', 'two-region-pages', 'arabic-line-exported', 'order-conversion-reorders',
+        'required_tags': ['code-point-class-exported', 'supplementary-plane-character-exported', 'code-point-class-on-arabic-line', 'export-after-get_quality', 'lines-with-different-character-tables', 'more-than-nine-blocks-or-lines', 'export-history-on-one-page', 'lines-with-more-than-1000-frames', 'mixed-script-pages', 'multi-word-aligned', 'two-region-pages', 'arabic-line-exported', 'order-conversion-reorders',
                           'non-ascii-or-tab-white-space', 'fallback-branch', 'line-dropped-by-confidence-filter',
                           'print-space-not-reaching-page-edge'],
     }
